@@ -1,17 +1,26 @@
 ----------------------------- MODULE Gen_SymTab -----------------------------
 (* Behaviour generator for C12 (spec -> code direction): random walks through SymTab's event   *)
 (* vocabulary; every behaviour is printed as JSON together with the specified return value   *)
-(* and state after each step.  Run with  tlc -simulate num=N -depth D -seed S.               *)
+(* and state after each step.  Run with  tlc -simulate num=N -depth D+2 -seed S.             *)
+(* The simulator chooses uniformly among successor states; `pick` (the operation of the next *)
+(* step) is drawn one step ahead so that operations are equally likely whatever the size of  *)
+(* their argument space (RandomElement is unusable: TLC repeats its draw).  The behaviour is  *)
+(* printed by the step after the last event, i.e. only for the walk the simulator took.      *)
 EXTENDS SymTab, Json
 CONSTANT GenDepth
-VARIABLE hist
-gvars == <<st, hist>>
-GInit == st = InitSt /\ hist = <<>>
-\* (the bound variable fixes one random draw; a LET would re-draw at every use)
+VARIABLES hist, pick
+gvars == <<st, hist, pick>>
 AllOps == {e.op : e \in Events(InitSt)}
-GNext == \E op \in {RandomElement(AllOps)} : \E e \in {RandomElement({x \in Events(st) : x.op = op} \cup {[op |-> "contains", s |-> 1, k |-> "a"]})} :
-           LET r == Apply(st, e)
-           IN  st' = r.st /\ hist' = Append(hist, [e |-> e, ret |-> r.ret, tab |-> r.st.tab, parent |-> r.st.parent])
-Emit == (Len(hist) = GenDepth) => PrintT(<<"BEHAVIOUR", ToJson(hist)>>)
+GInit == st = InitSt /\ hist = <<>> /\ pick \in AllOps
+GNext == IF Len(hist) < GenDepth
+         THEN LET sel == {x \in Events(st) : x.op = pick}
+              IN \E e \in (IF sel = {} THEN {[op |-> "contains", s |-> 1, k |-> "a"]} ELSE sel) : \E nxt \in AllOps :
+                   LET r == Apply(st, e)
+                   IN  /\ st' = r.st
+                       /\ hist' = Append(hist, [e |-> e, ret |-> r.ret, tab |-> r.st.tab, parent |-> r.st.parent])
+                       /\ pick' = nxt
+         ELSE /\ pick # "done"
+              /\ PrintT(<<"BEHAVIOUR", ToJson(hist)>>)
+              /\ pick' = "done" /\ UNCHANGED <<st, hist>>
 GSpec == GInit /\ [][GNext]_gvars
 =============================================================================
